@@ -377,10 +377,10 @@ func (self Reflect) listMap(v reflect.Value) node.Node {
 			}
 			if r.New {
 				item = self.create(e, nil)
-				keyVal := reflect.ValueOf(key[0].Value())
+				keyVal := mapKeyOf(key[0])
 				v.SetMapIndex(keyVal, item)
 			} else if key != nil {
-				keyVal := reflect.ValueOf(key[0].Value())
+				keyVal := mapKeyOf(key[0])
 				if r.Delete {
 					v.SetMapIndex(keyVal, reflect.ValueOf(nil))
 					return nil, nil, nil
